@@ -5,6 +5,7 @@
 //! length symbolic (probe P12) and a symbolic maximum size makes the remainder in `can_pack`
 //! intractable (see `c10_can_pack`, which covers the arithmetic symbolically). Every produced
 //! message is decoded with a reference decoder written from the documented wire format.
+// REQUIRES: src/shared/replication/client_ticks.rs
 use super::*;
 use alloc::vec::Vec;
 
